@@ -82,6 +82,50 @@ def check(model: Model, run: Run) -> None:
     from .c18 import ambiguity
     ambiguity(model, run, "G6-no-exponential-backtracking", SCHEMA, 3, 3)
     unescape_single_pass(model, run)
+    from .c16 import matched_text_is_the_input
+    matched_text_is_the_input(model, run, "G8-definition-text-matched-as-given")
+    keyword_combinations(model, run)
+
+
+def keyword_combinations(model: Model, run: Run) -> None:
+    """G7: the optional keywords of a description (OBSOLETE, SINGLE-VALUE, COLLECTIVE, NO-USER-MODIFICATION, the kind, USAGE ...)
+    are independent in the grammar: every combination is a sentence.  A constructor hook that raises on a condition made
+    only of such flag / enumeration / presence tests therefore rejects definitions the grammar derives."""
+    from ..srcmodel import dominating_literals
+    n = 0
+    for cname in CLASSES:
+        q = f"{SCHEMA}.{cname}"
+        fields = {f.name: f for f in model.dataclass_fields(q)}
+        for hook in ("__post_init__", "__init__"):
+            mt = model.find_method(q, hook)
+            if mt is None or (hook == "__init__" and model.classes[q].is_dataclass and mt.qualname.split(".")[-2] != cname):
+                continue
+            for r in [x for x in walk_no_nested(mt.node) if isinstance(x, ast.Raise)]:
+                lits = dominating_literals(mt.node, r)
+                atoms = []
+                for l in lits:
+                    atoms += [x for x in ast.walk(ast.parse(l, mode="eval")) if isinstance(x, ast.Attribute) and isinstance(x.value, ast.Name) and x.value.id == "self"]
+                names = {a.attr for a in atoms}
+                other = [x.id for l in lits for x in ast.walk(ast.parse(l, mode="eval")) if isinstance(x, ast.Name) and x.id != "self" and
+                         model.resolve_name(mt.module, x.id) not in model.classes]
+                flaglike = bool(names) and not other and all(
+                    a in fields and fields[a].annotation is not None and _flag_type(model, mt.module, fields[a].annotation) for a in names) and \
+                    not any(isinstance(x, ast.Call) for l in lits for x in ast.walk(ast.parse(l, mode="eval")))
+                n += 1
+                run.ob("G7-keyword-combinations-accepted", not flaglike, {"class": cname, "hook": hook, "condition": " and ".join(lits)[:120]})
+                if flaglike:
+                    run.fail(Finding("G7-keyword-combinations-accepted", mt.qualname, " and ".join(lits)[:100],
+                                     f"{cname}.{hook} raises when `{' and '.join(lits)[:100]}`: these are independent optional keywords of the RFC 4512 grammar, "
+                                     "so from_string now rejects definitions the grammar derives", model.loc(mt.module, r)))
+    run.coverage["constructor_hook_raises"] = n
+
+
+def _flag_type(model: Model, module: str, ann: ast.expr) -> bool:
+    txt = norm(ann)
+    if txt == "bool":
+        return True
+    q = model.resolve_name(module, txt)
+    return q in model.classes and model.classes[q].is_enum
 
 
 def pattern_of_match_var(model: Model, fi, var: str):
